@@ -664,6 +664,13 @@ impl Prioritize {
         }
     }
 
+    /// Returns true if the DATA frame currently handed to the codec belongs to
+    /// `stream` (its unsent remainder comes back to the stream's queue once
+    /// the frame has been written).
+    pub fn is_in_flight(&self, stream: &store::Ptr) -> bool {
+        matches!(self.in_flight_data_frame, InFlightData::DataFrame(key) if key == stream.key())
+    }
+
     pub fn clear_queue<B>(&mut self, buffer: &mut Buffer<Frame<B>>, stream: &mut store::Ptr) {
         let span = tracing::trace_span!("clear_queue", ?stream.id);
         let _e = span.enter();
